@@ -498,8 +498,8 @@ type vf24Scenario struct {
 func TestVerif_C24(t *testing.T) {
 	r := verifkit.Start(t, "C24", "exploration")
 	defer r.Finish()
-	nPrepared := r.Pick(3000, 60000)
-	nSlicer := r.Pick(1200, 20000)
+	nPrepared := r.Pick(3000, 200000)
+	nSlicer := r.Pick(1200, 60000)
 	r.SetRule(fmt.Sprintf("%d prepared-object cases: a valid object (regular, session-signed, tombstone, lock, v2 split first/middle/last/link with nested parent header, EC part) or a single-field mutant (ID bit, header field, checksum, declared size +-, payload byte, truncated/overlong stream, signature bytes/wrong key/missing, session token auth key/signature/issuer, attribute duplicate/empty/NUL, EC rule/part index, EC part length, EC part hash, parent header ID/signature/attributes) is offered through Streamer.Init/SendChunk/Close in a seeded chunking or through ValidateAndStoreObjectLocally (replication); %d slicer cases: unprepared objects (owner key or owner-issued session) of 0..4x the object size limit streamed in seeded chunkings with 0..2 transient local write failures; the oracle validates every object that reaches the recording local storage and, for successful slicer PUTs, reassembles the stored pieces; distinct = (path, object kind, mutation, outcome)", nPrepared, nSlicer))
 	r.Assume("Server.Replicate delegates object validation to putsvc.Service.ValidateAndStoreObjectLocally, which is what is driven here; request-level checks of Replicate (request signature, container membership) are outside C24")
 	r.Assume("only V1 session tokens are generated; split scheme v2 only (the node's slicer and the SDK produce v2)")
